@@ -323,8 +323,8 @@ def verify_function(eng, ceval, fname, variant="", overrides=None, args=None, se
             try:
                 lvs.extend(ceval.ev.lvalues(a, env, pre))
             except SpecError as ex:
-                if "no field" not in str(ex):
-                    raise   # a location that does not exist cannot be assigned: the clause is simply not needed
+                if "no field" not in str(ex) and "nil deref" not in str(ex):
+                    raise   # a location that does not exist (or hangs off a nil pointer) cannot be assigned
     for oi, (s, v) in enumerate(outs):
         env2 = ceval.result_env(env, f, v)
         if c is not None:
@@ -332,9 +332,9 @@ def verify_function(eng, ceval, fname, variant="", overrides=None, args=None, se
                 try:
                     cond = ceval.holds(en, env2, s, pre)
                 except SpecError as ex:
-                    if "no field" not in str(ex):
+                    if "no field" not in str(ex) and "different sorts" not in str(ex) and "width mismatch" not in str(ex):
                         raise
-                    # the clause speaks about state the code does not have (any more): it cannot hold
+                    # the clause speaks about state the code does not have (any more), or has with another type: it cannot hold
                     eng.oblige(s.fork(), "ensures", "%s" % (en.label or i), z3.BoolVal(True),
                                {"clause": en.text, "detail": "contract clause cannot be evaluated on this tree: %s" % ex})
                     continue
